@@ -308,14 +308,17 @@ func (s *seekScan) hasDir() bool {
 }
 
 type orientEnv struct {
-	dir  bool
-	sign int
-	free map[string]bool
-	und  map[string]bool // choices for atoms that are related to the start but not determined by the sign
+	dir    bool
+	sign   int
+	useExt bool // rows distinguish keys after the start that extend it (have it as a proper prefix)
+	ext    bool
+	free   map[string]bool
+	und    map[string]bool // choices for atoms that are related to the start but not determined by the sign
 }
 
 type orientEval struct {
 	s          *seekScan
+	withExt    bool // key filters: a backward scan keeps the keys that extend the start (all five stores must agree)
 	freeKeys   []string
 	undKeys    []string
 	sawSign    bool
@@ -353,6 +356,10 @@ func (ev *orientEval) related(call *ast.CallExpr, env *orientEnv) (val bool, ok 
 	// HasPrefix(key, start): impossible when key < start; HasPrefix(start, key): impossible when key > start
 	if (startSecond && env.sign < 0) || (!startSecond && env.sign > 0) {
 		return false, true
+	}
+	// HasPrefix(key, start) for a key after the start is exactly "the key extends the start"
+	if prefixFuncs[sym] && startSecond && env.sign > 0 && env.useExt {
+		return env.ext, true
 	}
 	k := types.ExprString(call)
 	found := false
@@ -510,7 +517,9 @@ func (ev *orientEval) decide(dirs []bool, signs []int, accept func(env *orientEn
 		return true, "too many unrelated atoms", false
 	}
 	var firstBad string
+	bestBad := 1 << 30
 	for mask := 0; mask < 1<<len(ev.freeKeys); mask++ {
+		nbad := 0
 		fr := map[string]bool{}
 		for i, k := range ev.freeKeys {
 			fr[k] = mask&(1<<i) != 0
@@ -524,17 +533,31 @@ func (ev *orientEval) decide(dirs []bool, signs []int, accept func(env *orientEn
 					for i, k := range ev.undKeys {
 						und[k] = um&(1<<i) != 0
 					}
-					got, defined := accept(&orientEnv{dir: d, sign: sg, free: fr, und: und})
-					if !defined || got == specAccept(d, sg) {
+					exts := []bool{false}
+					if ev.withExt && sg > 0 {
+						exts = []bool{false, true}
+					}
+					var got, want, defined, mismatch, extRow bool
+					for _, ex := range exts {
+						got, defined = accept(&orientEnv{dir: d, sign: sg, free: fr, und: und, useExt: ev.withExt, ext: ex})
+						want = specAccept(d, sg) || (ev.withExt && d && ex)
+						if defined && got != want {
+							mismatch, extRow = true, ex
+							break
+						}
+					}
+					if !mismatch {
 						continue
 					}
 					good = false
+					nbad++
 					if bad == "" {
-						bad = fmt.Sprintf("%s scan, key %s start: the code %s it, the ordered-map answer %s it",
+						bad = fmt.Sprintf("%s scan, key %s start%s: the code %s it, the stores' common answer %s it",
 							map[bool]string{false: "forward", true: "backward"}[d],
 							map[int]string{-1: "before", 0: "equal to", 1: "after"}[sg],
+							map[bool]string{false: "", true: " and extending it (start is its proper prefix)"}[extRow],
 							map[bool]string{true: "keeps", false: "drops"}[got],
-							map[bool]string{true: "keeps", false: "drops"}[specAccept(d, sg)])
+							map[bool]string{true: "keeps", false: "drops"}[want])
 						if len(ev.undKeys) > 0 {
 							bad += fmt.Sprintf(" (for some keys: the outcome hangs on %s, which the position does not determine)", strings.Join(ev.undKeys, ", "))
 						}
@@ -545,8 +568,10 @@ func (ev *orientEval) decide(dirs []bool, signs []int, accept func(env *orientEn
 		if good {
 			return true, "", true
 		}
-		if firstBad == "" || mask == 0 {
-			firstBad = bad
+		// report the valuation of the unrelated atoms under which the fewest rows disagree: that is the one under
+		// which the comparison is what decides
+		if firstBad == "" || nbad < bestBad {
+			firstBad, bestBad = bad, nbad
 		}
 	}
 	return false, firstBad, true
@@ -950,7 +975,7 @@ func (s *seekScan) filterLit(o types.Object, l *ast.FuncLit, dirs []bool, nextKe
 	if !ok || len(ret.Results) != 1 {
 		return
 	}
-	ev := &orientEval{s: s}
+	ev := &orientEval{s: s, withExt: true}
 	okk, detail, rel := ev.decide(dirs, []int{-1, 0, 1}, func(env *orientEnv) (bool, bool) {
 		return ev.eval(ret.Results[0], env), true
 	})
@@ -959,7 +984,7 @@ func (s *seekScan) filterLit(o types.Object, l *ast.FuncLit, dirs []bool, nextKe
 	}
 	key := nextKey("filter")
 	s.report("filter", key, l.Pos(), okk,
-		fmt.Sprintf("filter %s (in force for directions %v) keeps exactly the keys at or past the start in scan direction", o.Name(), dirs),
+		fmt.Sprintf("filter %s (in force for directions %v) keeps exactly the keys at or past the start in scan direction (a backward scan also keeps the keys that extend the start, as the BoltDB/LevelDB ranges and the trie store do)", o.Name(), dirs),
 		fmt.Sprintf("filter %s (in force for directions %v) does not keep exactly the keys at or past the start in scan direction: %s", o.Name(), dirs, detail))
 }
 
